@@ -745,7 +745,11 @@ func (e *engine) addValue(v octosql.Value) {
 		clash := valueClashModel(v) // exactly the model's class: C10_value_type covers every value outside it
 		js["class_value"] = clash
 		e.cf.Add(fmt.Sprintf("CValue %s %s %s", lib.CoqValue(v), coqType(t), lib.CoqBool(clash)), js, v.TypeID >= octosql.TypeIDList)
-		if !clash && valueClash(v) {
+		structs, tuples := map[int]bool{}, map[int]bool{}
+		if v.TypeID == octosql.TypeIDList {
+			shapesIn(v, structs, tuples)
+		}
+		if !clash && len(structs)+len(tuples) > 0 {
 			e.cf.Count("value_lists_of_structs_or_tuples_outside_class")
 		}
 		idx := e.cf.Add(fmt.Sprintf("CValueType %s %s", lib.CoqValue(v), coqType(t)),
@@ -832,6 +836,28 @@ func main() {
 		for j := 0; j < 1+r.Intn(3); j++ {
 			if v, ok := inhabit(r, tweak(r, t, false)); ok {
 				vs = append(vs, v)
+			}
+		}
+		e.addValue(octosql.NewList(vs))
+	}
+	// lists of equal-shape tuples / one-field structs with different component types (outside the finding's class)
+	for i := 0; i < nValues/4; i++ {
+		r := rng.Fork()
+		k := 1 + r.Intn(3)
+		asStruct := r.Chance(1, 3)
+		var vs []octosql.Value
+		for j := 0; j < 2+r.Intn(2); j++ {
+			parts := make([]octosql.Value, k)
+			for c := range parts {
+				parts[c] = lib.GenValue(r, lib.ScalarProfile, 0)
+				if r.Chance(1, 5) {
+					parts[c] = octosql.NewList([]octosql.Value{lib.GenValue(r, lib.ScalarProfile, 0)})
+				}
+			}
+			if asStruct {
+				vs = append(vs, octosql.NewStruct(parts[:1]))
+			} else {
+				vs = append(vs, octosql.NewTuple(parts))
 			}
 		}
 		e.addValue(octosql.NewList(vs))
